@@ -72,4 +72,7 @@ InvOneSeriesPerInput == LET X == Context(Ds, gen.opt) IN
    OneSeriesPerInput(SeriesOf(X, d), IF d.diagram = "against" THEN 0 ELSE IF d.diagram = "impact" THEN Len(SeriesOf(X, d)) ELSE IF d.diagram = "cond" THEN 2 * X.n ELSE IF d.diagram = "timeseries" THEN X.n * Len(X.T) ELSE X.n,
                      IF d.diagram \in {"obsfcst", "freq", "against"} THEN 1 ELSE 0)
 InvBins == LET X == Context(Ds, gen.opt) IN d.diagram = "hist" => \A i \in 1..X.n : EveryValueInOneBin(ValuesOf(X, i, d.m, "no", 1), d.axis, ThsA)
+\* ---- witnesses against vacuity (tools/vacuity.py): each is the NEGATION of a lemma's antecedent and must be VIOLATED by some enumerated case ----
+W_HistBins == LET X == Context(Ds, gen.opt) IN
+   ~(d.diagram = "hist" /\ d.axis = "within=" /\ \E k \in DOMAIN ValuesOf(X, 1, d.m, "no", 1) : Gt(ValuesOf(X, 1, d.m, "no", 1)[k], ThsA[1]) /\ Le(ValuesOf(X, 1, d.m, "no", 1)[k], ThsA[4]))
 =============================================================================
